@@ -1,4 +1,5 @@
 import PyYetiVerif.Model.NasCards
+import PyYetiVerif.Spec.NasFloatField
 /-! Line protocol for C12 (strings travel as hex of their code points < 256, doubles as decimal
 bit patterns).
   all  <bits>                 → `<format_float8>|<format_float16>|<format_double16>`
@@ -7,6 +8,10 @@ bit patterns).
   float <hex>                 → bits | `none`            (`float(s)`)
   round <bits>                → `round(x)`
   scan <hex>                  → `i<int>` | `f<bits>` | `s<hex>` | `n`   (`nas_sscanf(s, True)`)
+  fld <hex>                   → `<neg 0|1>|<ip>|<fp>|<D 0|1|->|<exp sign +|-|->|<exp digits>|<bits>` | `none`
+                                 (the recogniser `fieldOf?` of the emitted-field grammar; bits = nearest
+                                 double of the decimal the field denotes)
+  d16 <bits>                  → `<format_double16>`
   wt8 | wt16 | wt16d <namehex> <tok>…   tok = `b` | `s<hex>` | `i<int>` | `f<bits>` → hex of text | `value-error`
   rd <keepName 0|1> <namehex> <texthex> → cards joined by `;`, values by `,`
   anything else → `bad-op` -/
@@ -59,6 +64,17 @@ def answer (line : String) : String :=
   match (line.splitOn " ").filter (· ≠ "") with
   | ["all", b] => match dbl? b with
       | some x => String.ofList (formatFloat8 x ++ ['|'] ++ formatFloat16 x ++ ['|'] ++ formatDouble16 x)
+      | none => "bad-op"
+  | ["fld", h] => match unhexS h with
+      | some s => match fieldOf? s with
+          | some f =>
+            let b01 (b : Bool) : String := if b then "1" else "0"
+            let ex : String := match f.ex with
+              | none => "-|-|"
+              | some e => b01 e.dmark ++ "|" ++ (if e.eneg then "-" else "+") ++ "|" ++ String.ofList e.ds
+            b01 f.neg ++ "|" ++ String.ofList f.ip ++ "|" ++ String.ofList f.fp ++ "|" ++ ex ++ "|" ++
+              toString (toBits f.dec.1 f.dec.2.1 f.dec.2.2)
+          | none => "none"
       | none => "bad-op"
   | ["sci", b] => match dbl? b with
       | some x => String.ofList (formatScientific8 x ++ ['|'] ++ formatScientific16 x)
